@@ -26,10 +26,12 @@ import (
 	influxdb "github.com/influxdata/influxdb/v2"
 	"github.com/influxdata/influxdb/v2/models"
 	"github.com/influxdata/influxdb/v2/storage/reads/datatypes"
+	"github.com/influxdata/influxdb/v2/toml"
 	"github.com/influxdata/influxdb/v2/tsdb"
 	_ "github.com/influxdata/influxdb/v2/tsdb/engine"
 	"github.com/influxdata/influxdb/v2/tsdb/engine/tsm1"
 	_ "github.com/influxdata/influxdb/v2/tsdb/index"
+	"github.com/influxdata/influxdb/v2/tsdb/index/tsi1"
 	"verif/dsim/hx"
 	"verif/dsim/model"
 	"verif/dsim/simrt"
@@ -82,8 +84,10 @@ type world struct {
 	// orphan[{series, shard}]: at some moment the engine of the shard held data of the series while the index did
 	// not list it under its measurement (value: the suffix of unindexedTag). Sticky, because a later write to the
 	// series puts it back into the index without making the stranded data reachable for the deletes in between.
-	orphan  map[[2]int]string
-	queries []*metaq // the distinct metadata queries of the program (run again at every quiescent point)
+	orphan map[[2]int]string
+	// postCompaction: the queries run after a forced index compaction (other signature stem for listed dead names)
+	postCompaction bool
+	queries        []*metaq // the distinct metadata queries of the program (run again at every quiescent point)
 }
 
 func gen(r *hx.Run) []json.RawMessage {
@@ -91,7 +95,7 @@ func gen(r *hx.Run) []json.RawMessage {
 	stor.SetEqualsName(r.CfgBool("eqname"))
 	clients := r.CfgInt("clients", 3)
 	nops := o.Range(4, r.CfgInt("maxops", 50), "nops")
-	useSeries := 2 + o.Choose(6, "nseries")
+	useSeries := 2 + o.Choose(r.CfgInt("nseries", 7)-1, "nseries") // default: series 0..7 (two measurements)
 	useFields := 1 + o.Choose(3, "nfields")
 	var prog []json.RawMessage
 	var pool []metaq
@@ -703,6 +707,9 @@ func exec(r *hx.Run, prog []json.RawMessage) {
 		st := tsdb.NewStore(filepath.Join(fs.Root, "data"))
 		st.EngineOptions = stor.Options(r.Tape.S("cfg"), filepath.Join(fs.Root, "wal"))
 		st.EngineOptions.Config.WALDir = filepath.Join(fs.Root, "wal")
+		if n := r.CfgInt("idxlog", 0); n > 0 {
+			st.EngineOptions.Config.MaxIndexLogFileSize = toml.Size(n) // index logs rotate every few entries
+		}
 		st.EngineOptions.Config.MaxConcurrentCompactions = 2
 		if err := st.Open(context.Background()); err != nil {
 			r.Violate("C17:open-error", "open", "store open: %v", err)
@@ -750,6 +757,12 @@ func exec(r *hx.Run, prog []json.RawMessage) {
 				w.metadata("settled")
 			}
 		}
+		// the listings of known findings C42-F1..F4 (names of deleted series served straight from the index) are
+		// transient: they end with the next index compaction. A run that is clean, or has only such a listing
+		// against it, forces that compaction and asks again: what is still listed then stays listed for good.
+		if !r.Aborted && r.CfgBool("idxcompact") && onlyTransientListings(r.Viol) {
+			w.afterIndexCompaction()
+		}
 		if err := st.Close(); err != nil && len(r.Viol) == 0 && !r.Aborted {
 			r.Violate("C17:close-error", "close", "store close: %v", err)
 		}
@@ -769,6 +782,79 @@ func exec(r *hx.Run, prog []json.RawMessage) {
 		}
 	})
 	r.NonTrivial = len(prog) >= 4 && r.Sim != nil && r.Sim.Stats.Switches > 0
+}
+
+// onlyTransientListings: nothing is held against the run except listings of the transient family.
+func onlyTransientListings(vs []hx.Violation) bool {
+	for _, v := range vs {
+		if v.Class != "C42:dead-name-listed" {
+			return false
+		}
+		switch v.Sig {
+		case "measurement-listed-after-wipe", "tag-key-listed-after-wipe", "tag-value-listed-after-wipe", "filtered-measurement-listed-after-delete":
+		default:
+			return false
+		}
+	}
+	return true
+}
+
+// afterIndexCompaction lets every active index log grow older than the maximum log file age, requests a
+// compaction of every tsi1 index, waits until no index compaction is running any more and repeats the unfiltered
+// metadata queries without authorizer; a name of only-deleted series that is still listed is reported with the
+// stem "-still-listed-after-index-compaction" (it does not match the signatures of C42-F1..F4).
+func (w *world) afterIndexCompaction() {
+	r := w.r
+	age := time.Duration(w.st.EngineOptions.Config.CompactFullWriteColdDuration)
+	if age > time.Minute {
+		// the active logs only rotate once they are that old; hours of simulated background ticks are not worth it
+		r.Probe("probe_index_compaction_skipped_long_log_age")
+		return
+	}
+	simrt.Sleep(age+time.Second, 0)
+	for round := 0; round < 3; round++ {
+		var parts []*tsi1.Partition
+		for id := uint64(1); id <= nShards; id++ {
+			sh := w.st.Shard(id)
+			if sh == nil {
+				continue
+			}
+			idx, err := sh.Index()
+			if err != nil {
+				continue
+			}
+			ti, ok := idx.(*tsi1.Index)
+			if !ok {
+				continue
+			}
+			ti.Compact()
+			for i := 0; i < int(ti.PartitionN); i++ {
+				parts = append(parts, ti.PartitionAt(i))
+			}
+		}
+		for poll, quiet := 0, 0; poll < 400 && quiet < 2; poll++ {
+			simrt.Sleep(10*time.Millisecond, 0)
+			busy := false
+			for _, p := range parts {
+				if p.CurrentCompactionN() > 0 {
+					busy = true
+				}
+			}
+			if busy {
+				quiet = 0
+			} else {
+				quiet++
+			}
+		}
+	}
+	r.Probe("probe_index_compaction_forced")
+	w.postCompaction = true
+	defer func() { w.postCompaction = false }()
+	for _, q := range []*metaq{{Q: "names"}, {Q: "keys"}, {Q: "values", TK: []string{"host", "rack", "region"}}} {
+		if !w.runQuery(q, "after-index-compaction") || r.Aborted {
+			return
+		}
+	}
 }
 
 func strHash(s string) uint64 {
